@@ -89,3 +89,27 @@ package search
 //@     assert [time-bounds-of-a-partially-covered-block-lie-inside-the-query-range] implies(!isBlkFullyEncosed && len(sortedMatchedRecs) > 0, queryRange.StartEpochMs <= latestTs && latestTs <= queryRange.EndEpochMs && queryRange.StartEpochMs <= earliestTs && earliestTs <= queryRange.EndEpochMs)
 //@     assert [no-selected-record-no-time-bounds] implies(len(sortedMatchedRecs) == 0, latestTs == 0 && earliestTs == 18446744073709551615)
 //@ end
+
+// C02 (`NOT term` selects exactly the events that `term` does not): in the
+// record-by-record pass of a NEGATED free-text filter a record is selected only
+// if it did not match in this pass AND was not already marked as a positive
+// match by the dictionary pass over the block (such a record is cleared
+// instead); for a plain filter a record is selected only if it matched.
+// Ghost negChecked: the block helper was asked about this record and said "not
+// marked".
+//@ ghostdecl negChecked int
+//@ func filterRecordsFromSearchQuery
+//@   props C02
+//@   assumecalleerequires
+//@   ghostinit ghost(0, "negChecked") == 0
+//@   site callret ApplyColumnarSearchQuery #1:
+//@     ghostset ghost(0, "negChecked") = 0
+//@   site callret blockHelper.DoesRecordMatch #1:
+//@     ghostset ghost(0, "negChecked") = ite(result, 0, 1)
+//@   site call blockHelper.AddMatchedRecord #1:
+//@     assert [a-negated-filter-selects-a-record-only-if-neither-pass-matched-it] !matched && ghost(0, "negChecked") == 1 && arg1 == i
+//@   site call blockHelper.ClearBit #1:
+//@     assert [a-negated-filter-clears-the-record-it-matched] (matched || ghost(0, "negChecked") == 0) && arg1 == i
+//@   site call blockHelper.AddMatchedRecord #2:
+//@     assert [a-plain-filter-selects-a-record-only-if-it-matched] matched && arg1 == i
+//@ end
